@@ -329,7 +329,8 @@ class CDATASection(Text, Childless):
             and then go into CDATA mode again. (<![CDATA[)
         """
         if self.data:
-            f.write('<![CDATA[%s]]>' % self.data.replace(']]>',']]>]]><![CDATA['))
+            data = _handle_unrepresentable(unicode(self.data))
+            f.write('<![CDATA[%s]]>' % data.replace(']]>',']]]]><![CDATA[>'))
 
 class Element(Node):
     """ Creates a arbitrary element and is intended to be subclassed not used on its own.
